@@ -103,10 +103,10 @@ theorem writeULiteral_wrap_some (c : Ctx) (t : Str) (n : Option Nat) : ∃ r, wr
   cases n with
   | none =>
     simp only
-    by_cases h0 : countChar32 t = 0
+    by_cases h0 : Writer.countChar32 t = 0
     · rw [if_pos h0]; exact ⟨_, rfl⟩
     · rw [if_neg h0]
-      by_cases h1 : countChar32 t + c.lastColumn > LINE
+      by_cases h1 : Writer.countChar32 t + c.lastColumn > LINE
       · rw [if_pos h1, if_pos trivial]; exact ⟨_, rfl⟩
       · rw [if_neg h1]; exact ⟨_, rfl⟩
   | some k =>
@@ -166,8 +166,10 @@ theorem writeTripleQuoted_good (c : Ctx) (s : Str) (unq tri : Bool) (d : CU) (wi
     CIF 1.1 set in CIF 1.1 mode, and no text field containing `<LF>;` in CIF 1.1 mode -/
 theorem writeChar_value_good_gen (c : Ctx) (s : Str) (q : Bool) (hv : ¬(c.isCif1 = true ∧ validate11 s = false))
     (hr : (analyze s (!q) (!c.isCif1) LINE).delimLength = 2 →
-      ¬((analyze s (!q) (!c.isCif1) LINE).containsTextDelim = true ∧ c.isCif1 = true)) (wit : Prop) :
+      ¬((analyze s (!q) (!c.isCif1) LINE).containsTextDelim = true ∧ c.isCif1 = true))
+    (hcl : Lemmas.WriterChar.strClean c.isCif1 s = true) (wit : Prop) :
     Good c (writeChar c s q true) wit := by
+  rw [Lemmas.WriterChar.writeChar_clean c s q true hcl]
   rcases Lemmas.WriterChar.delimLength_cases s (!q) (!c.isCif1) LINE with d | d | d | d
   · rw [Lemmas.WriterChar.writeChar_delim0 c s q true hv d]; exact writeUnquoted_good _ _ _ _
   · rw [Lemmas.WriterChar.writeChar_delim1 c s q true hv d]; exact writeQuoted_good _ _ _ _ _
@@ -193,12 +195,15 @@ theorem writeChar_value_good_gen (c : Ctx) (s : Str) (q : Bool) (hv : ¬(c.isCif
   · rw [Lemmas.WriterChar.writeChar_delim3 c s q true hv d]; exact writeTripleQuoted_good _ _ _ _ _ _
 
 /-- `write_char` on a value (text fields allowed) never fails in CIF 2.0 mode -/
-theorem writeChar_value_good (c : Ctx) (s : Str) (q : Bool) (h2 : c.isCif1 = false) (wit : Prop) :
+theorem writeChar_value_good (c : Ctx) (s : Str) (q : Bool) (h2 : c.isCif1 = false)
+    (hcl : Lemmas.WriterChar.strClean false s = true) (wit : Prop) :
     Good c (writeChar c s q true) wit :=
-  writeChar_value_good_gen c s q (by simp [h2]) (by simp [h2]) wit
+  writeChar_value_good_gen c s q (by simp [h2]) (by simp [h2]) (by rw [h2]; exact hcl) wit
 
 /-- `write_char` on a table key (text fields not allowed): success or CIF_DISALLOWED_VALUE -/
-theorem writeChar_key_good (c : Ctx) (k : Str) (h2 : c.isCif1 = false) : Good c (writeChar c k true false) True := by
+theorem writeChar_key_good (c : Ctx) (k : Str) (h2 : c.isCif1 = false) (hcl : Lemmas.WriterChar.strClean false k = true) :
+    Good c (writeChar c k true false) True := by
+  rw [Lemmas.WriterChar.writeChar_clean c k true false (by rw [h2]; exact hcl)]
   have hv : ¬(c.isCif1 = true ∧ validate11 k = false) := by simp [h2]
   rcases Lemmas.WriterChar.delimLength_cases k (!true) (!c.isCif1) LINE with d | d | d | d
   · rw [Lemmas.WriterChar.writeChar_delim0 c k true false hv d]; exact writeUnquoted_good _ _ _ _
@@ -207,12 +212,12 @@ theorem writeChar_key_good (c : Ctx) (k : Str) (h2 : c.isCif1 = false) : Good c 
     exact Or.inr ⟨rfl, trivial⟩
   · rw [Lemmas.WriterChar.writeChar_delim3 c k true false hv d]; exact writeTripleQuoted_good _ _ _ _ _ _
 
-theorem countChar32_pos : ∀ (t : Str), t ≠ [] → 0 < countChar32 t := by
+theorem countChar32_pos : ∀ (t : Str), t ≠ [] → 0 < Writer.countChar32 t := by
   intro t h
   match t with
   | [] => exact absurd rfl h
-  | [_] => simp [countChar32]
-  | a :: b :: r => simp only [countChar32]; split <;> omega
+  | [_] => simp [Writer.countChar32]
+  | a :: b :: r => simp only [Writer.countChar32]; split <;> omega
 
 theorem writeNumb_good_gen (c : Ctx) (t : Str) (q : Bool) (ht : t ≠ []) (wit : Prop)
     (hq : q = true → Good c (writeChar c t true true) wit)
@@ -241,7 +246,7 @@ theorem writeNumb_good_gen (c : Ctx) (t : Str) (q : Bool) (ht : t ≠ []) (wit :
       have hne : o.isEmpty = false := by
         unfold writeULiteral at hw
         simp only at hw
-        have hn0 : ¬ countChar32 t = 0 := by omega
+        have hn0 : ¬ Writer.countChar32 t = 0 := by omega
         simp only [hn0, ↓reduceIte] at hw
         have hpl : (printfS t.length t) = t := by simp [printfS]
         split at hw
@@ -253,12 +258,13 @@ theorem writeNumb_good_gen (c : Ctx) (t : Str) (q : Bool) (ht : t ≠ []) (wit :
       simp only [hne, Bool.false_eq_true, ↓reduceIte]
       exact good_ok (writeULiteral_same c t none true (o, c') hw)
 
-theorem writeNumb_good (c : Ctx) (t : Str) (q : Bool) (h2 : c.isCif1 = false) (ht : t ≠ []) (wit : Prop) :
+theorem writeNumb_good (c : Ctx) (t : Str) (q : Bool) (h2 : c.isCif1 = false) (ht : t ≠ [])
+    (hcl : Lemmas.WriterChar.strClean false t = true) (wit : Prop) :
     Good c (writeNumb c t q) wit :=
-  writeNumb_good_gen c t q ht wit (fun _ => writeChar_value_good c t true h2 wit) (fun _ _ => writeChar_value_good c t false h2 wit)
+  writeNumb_good_gen c t q ht wit (fun _ => writeChar_value_good c t true h2 hcl wit) (fun _ _ => writeChar_value_good c t false h2 hcl wit)
 
 /-- a data name that `write_item` can print: at least two units, at most a line of characters -/
-def nameOk (n : Str) : Prop := 2 ≤ n.length ∧ countChar32 n ≤ LINE
+def nameOk (n : Str) : Prop := 2 ≤ n.length ∧ Writer.countChar32 n ≤ LINE
 
 theorem writeItemHead_good_gen (c : Ctx) (n : Str) (hv : c.writeItemNames = true → ¬(c.isCif1 = true ∧ validate11 n = false))
     (hn : c.writeItemNames = true → nameOk n) (wit : Prop) :
@@ -277,14 +283,14 @@ theorem writeItemHead_good_gen (c : Ctx) (n : Str) (hv : c.writeItemNames = true
             | none => (.error ErrCodes.CIF_ERROR : W)
             | some (o2, c2) => if o2.length < 2 then .error ErrCodes.CIF_ERROR else .ok (o1 ++ o2, c2)) wit := by
         intro c1 o1 hs h0
-        have hpos : ¬ countChar32 n = 0 := by
+        have hpos : ¬ Writer.countChar32 n = 0 := by
           have h1 := hok.1
           have := countChar32_pos n (by intro e; rw [e] at h1; simp at h1)
           omega
         have hpl : (printfS n.length n) = n := by simp [printfS]
         unfold writeULiteral
         simp only [hpos, ↓reduceIte, h0, Nat.add_zero, hpl]
-        have hfit : ¬ countChar32 n > LINE := by have := hok.2; omega
+        have hfit : ¬ Writer.countChar32 n > LINE := by have := hok.2; omega
         simp only [hfit, ↓reduceIte]
         have : ¬ n.length < 2 := by have := hok.1; omega
         simp only [this, ↓reduceIte]
@@ -321,6 +327,23 @@ mutual
 end
 
 mutual
+  /-- every text of the value that `write_char` may be given — strings, number texts, table keys — holds no CR and (CIF 2.0 mode,
+      `cif1 = false`) only characters CIF 2.0 allows: `write_char` does not refuse it at once -/
+  def valueClean (cif1 : Bool) : V → Bool
+    | .chr _ t => Lemmas.WriterChar.strClean cif1 t
+    | .numb _ t _ _ _ _ => Lemmas.WriterChar.strClean cif1 t
+    | .lst vs => elemsClean cif1 vs
+    | .tbl es => entriesClean cif1 es
+    | _ => true
+  def elemsClean (cif1 : Bool) : List V → Bool
+    | [] => true
+    | v :: r => valueClean cif1 v && elemsClean cif1 r
+  def entriesClean (cif1 : Bool) : List (Str × Str × V) → Bool
+    | [] => true
+    | (_, key, v) :: r => Lemmas.WriterChar.strClean cif1 key && valueClean cif1 v && entriesClean cif1 r
+end
+
+mutual
   /-- the value holds a table with at least one entry -/
   def hasEntry : V → Bool
     | .lst vs => elemsHaveEntry vs
@@ -339,24 +362,25 @@ theorem good_with_ctx {c : Ctx} {r : W} {wit : Prop} (c0 : Ctx) (hs : Same c0 c)
 
 mutual
   theorem item_good (n : Str) (v : V) (c : Ctx) (h2 : c.isCif1 = false) (hn : c.writeItemNames = true → nameOk n)
-      (hv : valueOk v = true) : Good c (writeItem n v c) (hasEntry v = true) := by
+      (hv : valueOk v = true) (hcl : valueClean false v = true) : Good c (writeItem n v c) (hasEntry v = true) := by
     unfold writeItem
     apply good_andThen (writeItemHead_good c n h2 hn _)
     intro c1 hs1
     have h21 : c1.isCif1 = false := by rw [hs1.isCif1]; exact h2
-    match v, hv with
-    | .chr q t, _ => exact writeChar_value_good c1 t q h21 _
-    | .numb q t _ _ _ _, hv =>
-      apply writeNumb_good c1 t q h21 _ _
+    match v, hv, hcl with
+    | .chr q t, _, hcl => exact writeChar_value_good c1 t q h21 (by simpa [valueClean] using hcl) _
+    | .numb q t _ _ _ _, hv, hcl =>
+      apply writeNumb_good c1 t q h21 _ (by simpa [valueClean] using hcl) _
       intro e; subst e; simp [valueOk] at hv
-    | .na, _ => exact literalOrError_wrap_good _ _ _
-    | .unk, _ => exact literalOrError_wrap_good _ _ _
-    | .lst vs, hv =>
+    | .na, _, _ => exact literalOrError_wrap_good _ _ _
+    | .unk, _, _ => exact literalOrError_wrap_good _ _ _
+    | .lst vs, hv, hcl =>
       simp only [h21, Bool.false_eq_true, ↓reduceIte]
       apply good_andThen (literalOrError_wrap_good c1 [91] _)
       intro c2 hs2
       have hE := elems_good vs { c2 with writeItemNames := false, separateValues := true }
         (by have := hs2.isCif1; simp only [Ctx.isCif1] at this h21 ⊢; rw [this]; exact h21) rfl (by simpa [valueOk] using hv)
+        (by simpa [valueClean] using hcl)
       -- the element loop runs in a context with `write_item_names` off; it is restored afterwards
       rcases hE with ⟨o3, c3, he, hs3⟩ | ⟨he, hw⟩
       · simp only [andThen, he]
@@ -370,12 +394,13 @@ mutual
         constructor
         · simp [andThen, he]
         · simpa [hasEntry] using hw
-    | .tbl es, hv =>
+    | .tbl es, hv, hcl =>
       simp only [h21, Bool.false_eq_true, ↓reduceIte]
       apply good_andThen (literalOrError_wrap_good c1 [123] _)
       intro c2 hs2
       have hE := entries_good es { c2 with writeItemNames := false }
         (by have := hs2.isCif1; simp only [Ctx.isCif1] at this h21 ⊢; rw [this]; exact h21) rfl (by simpa [valueOk] using hv)
+        (by simpa [valueClean] using hcl)
       rcases hE with ⟨o3, c3, he, hs3⟩ | ⟨he, hw⟩
       · simp only [andThen, he]
         obtain ⟨r4, hr4⟩ := writeLiteral_wrap_some c3 [32, 125]
@@ -390,23 +415,25 @@ mutual
         · simp only [hasEntry, Bool.not_eq_true', List.isEmpty_eq_false_iff]
           exact hw
   theorem elems_good (vs : List V) (c : Ctx) (h2 : c.isCif1 = false) (hnm : c.writeItemNames = false)
-      (hv : elemsOk vs = true) : Good c (writeElems vs c) (elemsHaveEntry vs = true) := by
-    match vs, hv with
-    | [], _ => unfold writeElems; exact good_ok (Same.refl c)
-    | v :: rest, hv =>
+      (hv : elemsOk vs = true) (hcl : elemsClean false vs = true) : Good c (writeElems vs c) (elemsHaveEntry vs = true) := by
+    match vs, hv, hcl with
+    | [], _, _ => unfold writeElems; exact good_ok (Same.refl c)
+    | v :: rest, hv, hcl =>
       unfold writeElems
       simp only [elemsOk, Bool.and_eq_true] at hv
-      apply good_andThen ((item_good [] v c h2 (by intro h; rw [hnm] at h; cases h) hv.1).mono (by intro h; simp [elemsHaveEntry, h]))
+      simp only [elemsClean, Bool.and_eq_true] at hcl
+      apply good_andThen ((item_good [] v c h2 (by intro h; rw [hnm] at h; cases h) hv.1 hcl.1).mono (by intro h; simp [elemsHaveEntry, h]))
       intro c1 hs1
-      exact (elems_good rest c1 (by rw [hs1.isCif1]; exact h2) (by rw [hs1.names]; exact hnm) hv.2).mono
+      exact (elems_good rest c1 (by rw [hs1.isCif1]; exact h2) (by rw [hs1.names]; exact hnm) hv.2 hcl.2).mono
         (by intro h; simp [elemsHaveEntry, h])
   theorem entries_good (es : List (Str × Str × V)) (c : Ctx) (h2 : c.isCif1 = false) (hnm : c.writeItemNames = false)
-      (hv : entriesOk es = true) : Good c (writeEntries es c) (es ≠ []) := by
-    match es, hv with
-    | [], _ => unfold writeEntries; exact good_ok (Same.refl c)
-    | (kn, key, v) :: rest, hv =>
+      (hv : entriesOk es = true) (hcl : entriesClean false es = true) : Good c (writeEntries es c) (es ≠ []) := by
+    match es, hv, hcl with
+    | [], _, _ => unfold writeEntries; exact good_ok (Same.refl c)
+    | (kn, key, v) :: rest, hv, hcl =>
       unfold writeEntries
       simp only [entriesOk, Bool.and_eq_true] at hv
+      simp only [entriesClean, Bool.and_eq_true] at hcl
       have hwit : ((kn, key, v) :: rest) ≠ [] := by simp
       -- the optional line break, the separator
       generalize hc0 : (if (key.length : Int) > (LINE : Int) - (c.lastColumn + 8) then writeNewline c else ([], c)) = p0
@@ -427,7 +454,7 @@ mutual
       have h22 : c2.isCif1 = false := by rw [Same.isCif1 hs1]; exact h2
       have hnm2 : c2.writeItemNames = false := by rw [hs1.names]; exact hnm
       -- key, colon, value, the remaining entries
-      apply good_andThen ((writeChar_key_good c2 key h22).mono (fun _ => hwit))
+      apply good_andThen ((writeChar_key_good c2 key h22 hcl.1.1).mono (fun _ => hwit))
       intro c3 hs3
       apply good_andThen (c := c3)
       · cases hl : writeLiteral c3 [58] false with
@@ -436,9 +463,9 @@ mutual
       · intro c4 hs4
         have h24 : c4.isCif1 = false := by rw [(hs3.trans hs4).isCif1]; exact h22
         have hnm4 : c4.writeItemNames = false := by rw [(hs3.trans hs4).names]; exact hnm2
-        apply good_andThen ((item_good [] v c4 h24 (by intro h; rw [hnm4] at h; cases h) hv.1).mono (fun _ => hwit))
+        apply good_andThen ((item_good [] v c4 h24 (by intro h; rw [hnm4] at h; cases h) hv.1 hcl.1.2).mono (fun _ => hwit))
         intro c5 hs5
-        exact (entries_good rest c5 (by rw [hs5.isCif1]; exact h24) (by rw [hs5.names]; exact hnm4) hv.2).mono (fun _ => hwit)
+        exact (entries_good rest c5 (by rw [hs5.isCif1]; exact h24) (by rw [hs5.names]; exact hnm4) hv.2 hcl.2).mono (fun _ => hwit)
 end
 
 /-! ### items, packets, loops, containers, the CIF -/
@@ -476,38 +503,41 @@ def itemsOk (named : Bool) (p : List (Str × V)) : Prop := ∀ nv ∈ p, valueOk
 
 def itemsHaveEntry (p : List (Str × V)) : Prop := ∃ nv ∈ p, hasEntry nv.2 = true
 
-theorem items_good : ∀ (p : List (Str × V)) (c : Ctx), c.isCif1 = false → itemsOk c.writeItemNames p →
+/-- every text of the packet's values is clean (`valueClean`) -/
+def itemsClean (cif1 : Bool) (p : List (Str × V)) : Prop := ∀ nv ∈ p, valueClean cif1 nv.2 = true
+
+theorem items_good : ∀ (p : List (Str × V)) (c : Ctx), c.isCif1 = false → itemsOk c.writeItemNames p → itemsClean false p →
     Good c (writeItems p c) (itemsHaveEntry p) := by
   intro p
   induction p with
-  | nil => intro c _ _; exact good_ok (Same.refl c)
+  | nil => intro c _ _ _; exact good_ok (Same.refl c)
   | cons nv rest ih =>
-    intro c h2 hok
+    intro c h2 hok hcl
     obtain ⟨n, v⟩ := nv
     simp only [writeItems]
     have h1 := hok (n, v) List.mem_cons_self
-    apply good_andThen ((item_good n v c h2 h1.2 h1.1).mono (fun h => ⟨(n, v), List.mem_cons_self, h⟩))
+    apply good_andThen ((item_good n v c h2 h1.2 h1.1 (hcl (n, v) List.mem_cons_self)).mono (fun h => ⟨(n, v), List.mem_cons_self, h⟩))
     intro c1 hs1
-    apply (ih c1 (by rw [hs1.isCif1]; exact h2) ?_).mono
+    apply (ih c1 (by rw [hs1.isCif1]; exact h2) ?_ (fun x hx => hcl x (List.mem_cons_of_mem _ hx))).mono
     · rintro ⟨x, hx, hh⟩; exact ⟨x, List.mem_cons_of_mem _ hx, hh⟩
     · rw [hs1.names]; exact fun x hx => hok x (List.mem_cons_of_mem _ hx)
 
 def packetsHaveEntry (ps : List (List (Str × V))) : Prop := ∃ p ∈ ps, itemsHaveEntry p
 
 theorem packets_good : ∀ (ps : List (List (Str × V))) (c : Ctx), c.isCif1 = false →
-    (∀ p ∈ ps, itemsOk c.writeItemNames p) → Good c (writePackets ps c) (packetsHaveEntry ps) := by
+    (∀ p ∈ ps, itemsOk c.writeItemNames p) → (∀ p ∈ ps, itemsClean false p) → Good c (writePackets ps c) (packetsHaveEntry ps) := by
   intro ps
   induction ps with
-  | nil => intro c _ _; exact good_ok (Same.refl c)
+  | nil => intro c _ _ _; exact good_ok (Same.refl c)
   | cons p rest ih =>
-    intro c h2 hok
+    intro c h2 hok hcl
     simp only [writePackets, writePacket]
     apply good_andThen (c := c)
-    · apply good_andThen ((items_good p c h2 (hok p List.mem_cons_self)).mono (fun h => ⟨p, List.mem_cons_self, h⟩))
+    · apply good_andThen ((items_good p c h2 (hok p List.mem_cons_self) (hcl p List.mem_cons_self)).mono (fun h => ⟨p, List.mem_cons_self, h⟩))
       intro c1 hs1
       exact good_ok (writeNewline_same c1)
     · intro c1 hs1
-      apply (ih c1 (by rw [hs1.isCif1]; exact h2) ?_).mono
+      apply (ih c1 (by rw [hs1.isCif1]; exact h2) ?_ (fun x hx => hcl x (List.mem_cons_of_mem _ hx))).mono
       · rintro ⟨x, hx, hh⟩; exact ⟨x, List.mem_cons_of_mem _ hx, hh⟩
       · rw [hs1.names]; exact fun x hx => hok x (List.mem_cons_of_mem _ hx)
 
@@ -520,12 +550,15 @@ theorem headerNames_good : ∀ (ns : List Str) (c : Ctx), c.isCif1 = false →
     intro c h2
     simp only [writeHeaderNames, h2, Bool.false_eq_true, false_and, ↓reduceIte]
     obtain ⟨o, c', h, hs⟩ := ih { c with lastColumn := 0 } (by simpa [Ctx.isCif1] using h2)
-    exact ⟨(if countChar32 n < LINE then [32] else []) ++ n ++ [10] ++ o, c', by simp [andThen, h], ⟨hs.1, hs.2⟩⟩
+    exact ⟨(if Writer.countChar32 n < LINE then [32] else []) ++ n ++ [10] ++ o, c', by simp [andThen, h], ⟨hs.1, hs.2⟩⟩
 
 /-- a loop is writable: it holds a packet, and all its items are -/
 def loopOk (l : WLoop) : Prop := l.packets ≠ [] ∧ ∀ p ∈ l.packets, itemsOk (isScalars l.category) p
 
-theorem loop_good (l : WLoop) (c : Ctx) (h2 : c.isCif1 = false) (hok : loopOk l) :
+/-- every text of the loop's values is clean -/
+def loopClean (cif1 : Bool) (l : WLoop) : Prop := ∀ p ∈ l.packets, itemsClean cif1 p
+
+theorem loop_good (l : WLoop) (c : Ctx) (h2 : c.isCif1 = false) (hok : loopOk l) (hcl : loopClean false l) :
     GoodV c (writeLoop l c) (packetsHaveEntry l.packets) := by
   unfold writeLoop
   have hne : l.packets.isEmpty = false := by
@@ -539,7 +572,7 @@ theorem loop_good (l : WLoop) (c : Ctx) (h2 : c.isCif1 = false) (hok : loopOk l)
     intro o0 c1 hv hn
     simp only [hne, Bool.false_eq_true, ↓reduceIte]
     have h21 := isCif1_of_version hv h2
-    have hp := packets_good l.packets c1 h21 (by rw [hn]; exact hok.2)
+    have hp := packets_good l.packets c1 h21 (by rw [hn]; exact hok.2) hcl
     rcases hp with ⟨o, c2, he, hs⟩ | ⟨he, hw⟩
     · left; exact ⟨o ++ (writeNewline c2).1, (writeNewline c2).2, by simp [andThen, he], by simp [writeNewline]; rw [hs.1, hv]⟩
     · right; exact ⟨by simp [andThen, he], hw⟩
@@ -560,17 +593,17 @@ theorem loop_good (l : WLoop) (c : Ctx) (h2 : c.isCif1 = false) (hok : loopOk l)
 
 def loopsHaveEntry (ls : List WLoop) : Prop := ∃ l ∈ ls, packetsHaveEntry l.packets
 
-theorem loops_good : ∀ (ls : List WLoop) (c : Ctx), c.isCif1 = false → (∀ l ∈ ls, loopOk l) →
+theorem loops_good : ∀ (ls : List WLoop) (c : Ctx), c.isCif1 = false → (∀ l ∈ ls, loopOk l) → (∀ l ∈ ls, loopClean false l) →
     GoodV c (writeLoops ls c) (loopsHaveEntry ls) := by
   intro ls
   induction ls with
-  | nil => intro c _ _; exact goodV_ok rfl
+  | nil => intro c _ _ _; exact goodV_ok rfl
   | cons l rest ih =>
-    intro c h2 hok
+    intro c h2 hok hcl
     simp only [writeLoops]
-    apply goodV_andThen ((loop_good l c h2 (hok l List.mem_cons_self)).mono (fun h => ⟨l, List.mem_cons_self, h⟩))
+    apply goodV_andThen ((loop_good l c h2 (hok l List.mem_cons_self) (hcl l List.mem_cons_self)).mono (fun h => ⟨l, List.mem_cons_self, h⟩))
     intro c1 hv
-    apply (ih c1 (isCif1_of_version hv h2) (fun x hx => hok x (List.mem_cons_of_mem _ hx))).mono
+    apply (ih c1 (isCif1_of_version hv h2) (fun x hx => hok x (List.mem_cons_of_mem _ hx)) (fun x hx => hcl x (List.mem_cons_of_mem _ hx))).mono
     rintro ⟨x, hx, hh⟩; exact ⟨x, List.mem_cons_of_mem _ hx, hh⟩
 
 mutual
@@ -583,6 +616,16 @@ mutual
 end
 
 mutual
+  /-- every string, number text and table key in the container (its save frames included) is clean: no CR, and for CIF 2.0 output
+      (`cif1 = false`) only characters CIF 2.0 allows — the property's "strings use only CIF 2.0 characters (no CR)" -/
+  def containerClean (cif1 : Bool) : WContainer → Prop
+    | .mk _ frames loops => containersClean cif1 frames ∧ ∀ l ∈ loops, loopClean cif1 l
+  def containersClean (cif1 : Bool) : List WContainer → Prop
+    | [] => True
+    | k :: rest => containerClean cif1 k ∧ containersClean cif1 rest
+end
+
+mutual
   /-- some value of the container holds a table entry -/
   def containerHasEntry : WContainer → Prop
     | .mk _ frames loops => containersHaveEntry frames ∨ loopsHaveEntry loops
@@ -592,35 +635,37 @@ mutual
 end
 
 mutual
-  theorem container_good (k : WContainer) (c : Ctx) (h2 : c.isCif1 = false) (hok : containerOk k) :
+  theorem container_good (k : WContainer) (c : Ctx) (h2 : c.isCif1 = false) (hok : containerOk k) (hcl : containerClean false k) :
       GoodV c (writeContainer k c) (containerHasEntry k) := by
-    match k, hok with
-    | .mk code frames loops, hok =>
+    match k, hok, hcl with
+    | .mk code frames loops, hok, hcl =>
       simp only [containerOk] at hok
+      simp only [containerClean] at hcl
       unfold writeContainer
       simp only [h2, Bool.false_eq_true, false_and, ↓reduceIte]
       apply goodV_andThen (goodV_ok (c' := { c with lastColumn := 0, depth := c.depth + 1 }) rfl)
       intro c1 hv1
       have h21 := isCif1_of_version hv1 (show ({ c with lastColumn := 0, depth := c.depth + 1 } : Ctx).isCif1 = false by
         simpa [Ctx.isCif1] using h2)
-      apply goodV_andThen ((containers_good frames c1 h21 hok.1).mono (fun h => by simp [containerHasEntry, h]))
+      apply goodV_andThen ((containers_good frames c1 h21 hok.1 hcl.1).mono (fun h => by simp [containerHasEntry, h]))
       intro c2 hv2
       have h22 := isCif1_of_version hv2 h21
-      apply goodV_andThen ((loops_good loops c2 h22 hok.2).mono (fun h => by simp [containerHasEntry, h]))
+      apply goodV_andThen ((loops_good loops c2 h22 hok.2 hcl.2).mono (fun h => by simp [containerHasEntry, h]))
       intro c3 hv3
       split
       · exact goodV_ok (by simp [writeNewline])
       · exact goodV_ok rfl
-  theorem containers_good (ks : List WContainer) (c : Ctx) (h2 : c.isCif1 = false) (hok : containersOk ks) :
-      GoodV c (writeContainers ks c) (containersHaveEntry ks) := by
-    match ks, hok with
-    | [], _ => unfold writeContainers; exact goodV_ok rfl
-    | k :: rest, hok =>
+  theorem containers_good (ks : List WContainer) (c : Ctx) (h2 : c.isCif1 = false) (hok : containersOk ks)
+      (hcl : containersClean false ks) : GoodV c (writeContainers ks c) (containersHaveEntry ks) := by
+    match ks, hok, hcl with
+    | [], _, _ => unfold writeContainers; exact goodV_ok rfl
+    | k :: rest, hok, hcl =>
       simp only [containersOk] at hok
+      simp only [containersClean] at hcl
       unfold writeContainers
-      apply goodV_andThen ((container_good k c h2 hok.1).mono (fun h => by simp [containersHaveEntry, h]))
+      apply goodV_andThen ((container_good k c h2 hok.1 hcl.1).mono (fun h => by simp [containersHaveEntry, h]))
       intro c1 hv1
-      exact (containers_good rest c1 (isCif1_of_version hv1 h2) hok.2).mono (fun h => by simp [containersHaveEntry, h])
+      exact (containers_good rest c1 (isCif1_of_version hv1 h2) hok.2 hcl.2).mono (fun h => by simp [containersHaveEntry, h])
 end
 
 end CifModel.Lemmas.WriterTotal
